@@ -9,3 +9,6 @@ from . import cfgfamily, cfgmachine, persist
 def run(tier, seed):
     out = persist.run_persist("C02", ["C02_PlainTree"], ["C02_Reproduces"], tier, seed)
     return cfgmachine.merge(out, cfgfamily.run_family("C02", [], ["C02_Reproduces"], tier, seed, then_roundtrip=True))
+
+
+replay_file = cfgmachine.replay_file
